@@ -35,6 +35,7 @@ void c12_peek_xistream(sqfs_istream_t *s, size_t *off, size_t *used);
 size_t c12_xistream_bufsz(void);
 void c12_peek_xostream(sqfs_ostream_t *s, size_t *inbuf_used);
 size_t c12_xostream_bufsz(void);
+void c12_peek_tar_stream(sqfs_dir_iterator_t *it, sqfs_istream_t **stream, int *compressed);
 void c12_peek_tar(sqfs_dir_iterator_t *it, int *state, unsigned long long *record_size,
 		  unsigned long long *file_size, unsigned long long *offset, char *sparse, size_t cap);
 
@@ -424,14 +425,50 @@ static int toy_process(xfrm_stream_t *s, const void *in, sqfs_u32 in_size, void 
 	return XFRM_STREAM_OK;
 }
 
+/* third codec (same as Sqfs.IoLoops.zProc): toy decompressor. 0xC1, blocks [len 1..254][bytes], end mark [0]; state k:
+ * 0 before the magic, 1 length byte next, 2 behind the end mark, 2+r = r bytes of the block left. Errors: wrong magic,
+ * length byte 0xFF, end of input anywhere but behind the end mark. */
+static int z_process(xfrm_stream_t *s, const void *in, sqfs_u32 in_size, void *out, sqfs_u32 out_size,
+		     sqfs_u32 *in_read, sqfs_u32 *out_written, int mode)
+{
+	toy_t *t = (toy_t *)s; const unsigned char *ip = in; sqfs_u32 r, m0, m, n;
+	if (in_size == 0) return (mode == XFRM_STREAM_FLUSH_FULL && t->k != 2) ? XFRM_STREAM_ERROR : XFRM_STREAM_OK;
+	if (t->k == 0) { if (ip[0] != 0xC1) return XFRM_STREAM_ERROR; t->k = 1; *in_read += 1; return XFRM_STREAM_OK; }
+	if (t->k == 1) {
+		if (ip[0] == 0) t->k = 2; else if (ip[0] == 255) return XFRM_STREAM_ERROR; else t->k = 2 + ip[0];
+		*in_read += 1; return XFRM_STREAM_OK;
+	}
+	m0 = in_size > 64 ? (in_size + 1) / 2 : (in_size > 5 ? 5 : in_size);
+	if (t->k == 2) { *in_read += m0; return XFRM_STREAM_OK; }
+	r = t->k - 2; m = r < m0 ? r : m0; n = out_size < m ? out_size : m;
+	memcpy(out, in, n);
+	*in_read += n; *out_written += n;
+	t->k = (r - n == 0) ? 1 : 2 + (r - n);
+	return n < m ? XFRM_STREAM_BUFFER_FULL : XFRM_STREAM_OK;
+}
+
 static void toy_destroy(sqfs_object_t *o) { free(o); }
 
 static toy_t *toy_create_mode(int pass)
 {
 	toy_t *t = calloc(1, sizeof(*t)); if (!t) abort();
 	sqfs_object_init(t, toy_destroy, NULL);
-	t->base.process_data = pass ? pass_process : toy_process;
+	t->base.process_data = pass == 2 ? z_process : (pass ? pass_process : toy_process);
 	return t;
+}
+
+/* tar_open_stream (the real one, lib/tar/src/iterator.c) asks these two for the compressor behind a magic; linked with
+ * -Wl,--wrap so that the toy decompressor is what it wraps the input in. The real text of tar_open_stream runs. */
+static toy_t *g_zcodec;
+int __wrap_xfrm_compressor_id_from_magic(const void *data, size_t count)
+{
+	return (count > 0 && ((const unsigned char *)data)[0] == 0xC1) ? 77 : 0;
+}
+xfrm_stream_t *__wrap_decompressor_stream_create(int id)
+{
+	if (id != 77) return NULL;
+	g_zcodec = toy_create_mode(2);
+	return (xfrm_stream_t *)g_zcodec;
 }
 
 static toy_t *toy_create(void) { return toy_create_mode(0); }
@@ -566,13 +603,14 @@ static int do_istream(char *b, char *fl, char *d, char *ops, char *sc)
  * client ops on the member stream (no M: record_to_memory is never applied to a member stream, and its error path calls
  * get_filename, which dereferences the parent the stream has already dropped), drop, it->next.  The geometry the real read_header decodes must be the one the
  * scenario line states (the model takes it from the line). */
-/* bx != NULL: the archive stream is the transforming istream (pass-through codec) on top of the file istream */
+/* bx != NULL: the input is a stream of the toy compressor (z_process): tar_open_stream itself must find the magic, wrap
+ * the raw file istream into the decompressing istream and set `compressed` (printed as z=1) */
 static int do_tarstrm(char *b, char *bx, char *fl, char *d, char *rs, char *fs, char *sp, char *ops, char *sc)
 {
-	sqfs_istream_t *in, *arch, *ms = NULL; sqfs_ostream_t *o; unsigned char *data; long n; toy_t *codec = NULL;
+	sqfs_istream_t *in, *arch = NULL, *ms = NULL; sqfs_ostream_t *o; unsigned char *data; long n;
 	size_t xoff = 0, xused = 0;
 	sqfs_dir_iterator_t *it; sqfs_dir_entry_t *ent = NULL;
-	size_t line_num = 0, off, used; int eof, fd, rc1, rc2 = 0, have2 = 0, st;
+	size_t line_num = 0, off, used; int eof, fd, rc1, rc2 = 0, have2 = 0, st, z = 0;
 	unsigned long long rsz, fsz, offs; char spbuf[512];
 	reset_os();
 	if (strtoul(b, NULL, 10) != c12_istream_bufsz() || (bx && strtoul(bx, NULL, 10) != c12_xistream_bufsz())) { puts("bad-B"); return 0; }
@@ -583,24 +621,27 @@ static int do_tarstrm(char *b, char *bx, char *fl, char *d, char *rs, char *fs, 
 	fd = stream_fd(0);
 	if (sqfs_istream_open_handle(&in, "in", fd, 0)) { close(fd); return -1; }
 	if (!(o = open_ostream(fl))) { sqfs_drop(in); return -1; }
-	arch = in;
-	if (bx) {
-		codec = toy_create_mode(1);
-		arch = istream_xfrm_create(in, (xfrm_stream_t *)codec);
-		if (!arch) { sqfs_drop(in); sqfs_drop(codec); sqfs_drop(o); return -1; }
+	g_zcodec = NULL;
+	it = tar_open_stream(in, NULL);
+	if (!it) { sqfs_drop(in); sqfs_drop(o); return -1; }
+	c12_peek_tar_stream(it, &arch, &z);
+	if (bx && (!z || arch == in || g_zcodec == NULL)) {
+		/* probe failed (hard error / end of input at the first read) or no magic: raw stream, outside the model */
+		puts("z=0 unmodelled");
+		sqfs_drop(it); if (g_zcodec) { sqfs_drop(g_zcodec); g_zcodec = NULL; } sqfs_drop(in); sqfs_drop(o);
+		return 0;
 	}
-	it = tar_open_stream(arch, NULL);
-	if (!it) { if (bx) { sqfs_drop(arch); sqfs_drop(codec); } sqfs_drop(in); sqfs_drop(o); return -1; }
+	if (!bx && (z || arch != in)) { puts("bad-path"); sqfs_drop(it); sqfs_drop(in); sqfs_drop(o); return 0; }
 	rc1 = it->next(it, &ent);
 	printf("n1=%d ", rc1);
 	if (rc1 == 0) {
 		c12_peek_tar(it, &st, &rsz, &fsz, &offs, spbuf, sizeof(spbuf));
 		if (rsz != strtoull(rs, NULL, 10) || fsz != strtoull(fs, NULL, 10) || strcmp(spbuf, sp)) {
 			printf("bad-hdr decoded=%llu,%llu,%s\n", rsz, fsz, spbuf);
-			free(ent); sqfs_drop(it); if (bx) { sqfs_drop(arch); sqfs_drop(codec); } sqfs_drop(in); sqfs_drop(o);
+			free(ent); sqfs_drop(it); sqfs_drop(in); sqfs_drop(o);
 			return 0;
 		}
-		if (it->open_file_ro(it, &ms) != 0) { puts("bad-open"); free(ent); sqfs_drop(it); if (bx) { sqfs_drop(arch); sqfs_drop(codec); } sqfs_drop(in); sqfs_drop(o); return 0; }
+		if (it->open_file_ro(it, &ms) != 0) { puts("bad-open"); free(ent); sqfs_drop(it); sqfs_drop(in); sqfs_drop(o); return 0; }
 		run_client_ops(ms, o, ops, &line_num);
 		sqfs_drop(ms);
 		free(ent); ent = NULL;
@@ -610,11 +651,13 @@ static int do_tarstrm(char *b, char *bx, char *fl, char *d, char *rs, char *fs, 
 	c12_peek_tar(it, &st, &rsz, &fsz, &offs, spbuf, sizeof(spbuf));
 	if (have2) printf("n2=%d", rc2); else fputs("n2=-", stdout);
 	printf(" it=%d,%llu,%llu ", st, rsz, offs);
-	if (bx) { c12_peek_xistream(arch, &xoff, &xused); printf("xst=%zu,%zu,%u ", xoff, xused, codec->k); }
+	if (bx) { c12_peek_xistream(arch, &xoff, &xused); printf("z=%d xst=%zu,%zu,%u ", z, xoff, xused, g_zcodec->k); }
 	c12_peek_istream(in, &eof, &off, &used);
 	printf("st=%d,%zu,%zu ", eof, off, used); print_ostream(o);
 	print_tail();
-	sqfs_drop(it); if (bx) { sqfs_drop(arch); sqfs_drop(codec); } sqfs_drop(in); sqfs_drop(o);
+	/* tar_open_stream keeps the reference decompressor_stream_create returned (it never drops it after
+	 * istream_xfrm_create has taken its own): that reference is released here */
+	sqfs_drop(it); if (g_zcodec) { sqfs_drop(g_zcodec); g_zcodec = NULL; } sqfs_drop(in); sqfs_drop(o);
 	return 0;
 }
 
